@@ -107,7 +107,7 @@ impl<const N: usize> Default for Identity<N> {
 spec fn mode_code(m: Mode) -> u8 { match m { Mode::Client => 0, Mode::Server => 1 } }
 spec fn other_mode(m: Mode) -> Mode { match m { Mode::Client => Mode::Server, Mode::Server => Mode::Client } }
 #[derive(Copy, Clone)]
-enum Mode {
+pub enum Mode {
     Client,
     Server,
 }
@@ -138,10 +138,10 @@ impl Mode {
 }
 
 //@@ octo-squirrel/src/manager/shadowsocks.rs:57-62  struct ServerUser  sha=2aac52e3ac4f8a54
-struct ServerUser<const N: usize> {
-    name: String,
-    key: [u8; N],
-    identity_hash: [u8; 16],
+pub struct ServerUser<const N: usize> {
+    pub name: String,
+    pub key: [u8; N],
+    pub identity_hash: [u8; 16],
 }
 
 //@@ octo-squirrel/src/manager/shadowsocks.rs:64-68  impl ServerUser  sha=c287001fd705f8df
@@ -336,7 +336,7 @@ fn a22tcp__new_decoder_with_eih<const N: usize>(
 }
 
 //@@ octo-squirrel/src/codec/shadowsocks/tcp.rs:29-35  struct Context  sha=f38c8bead60f1e38
-struct Context<const N: usize> {
+pub struct Context<const N: usize> {
     key: [u8; N],
     identity_keys: Vec<[u8; N]>,
     kind: CipherKind,
@@ -361,7 +361,7 @@ impl<const N: usize> Context<N> {
 
 //@@ octo-squirrel/src/codec/shadowsocks/tcp.rs:60-64  struct AEADCipherCodec  sha=b91e742ceaa32d23
 #[derive(Default)]
-struct AEADCipherCodec<const N: usize> {
+pub struct AEADCipherCodec<const N: usize> {
     encoder: Option<ChunkEncoder>,
     decoder: Option<ChunkDecoder>,
 }
@@ -662,10 +662,10 @@ impl<const N: usize> AEADCipherCodec<N> {
 }
 
 //@@ octo-squirrel/src/codec/shadowsocks/tcp.rs:236-243  struct Session  sha=1392850d69a201bf
-struct Session<const N: usize> {
+pub struct Session<const N: usize> {
     mode: Mode,
     identity: Identity<N>,
-    address: Option<Address>,
+    pub address: Option<Address>,
     }
 
 //@@ octo-squirrel/src/codec/shadowsocks/tcp.rs:245-249  impl Session  sha=21df35fa41e24243
@@ -680,8 +680,8 @@ impl<const N: usize> Session<N> {
 }
 
 //@@ octo-squirrel/src/codec/shadowsocks/tcp.rs:251-255  struct Identity  sha=1d0a7a0e004ea6f4
-struct Identity<const N: usize> {
-    salt: [u8; N],
-    request_salt: Option<[u8; N]>,
-    user: Option<ServerUser<N>>,
+pub struct Identity<const N: usize> {
+    pub salt: [u8; N],
+    pub request_salt: Option<[u8; N]>,
+    pub user: Option<ServerUser<N>>,
 }
